@@ -82,7 +82,8 @@ def judge_hours(case, hours, want):
     if dh is None:
         return [("dhuhr-invalid", "Dhuhr is not reported")]
     if "dhuhr" in want:
-        ha = e.hour_angle(dh)
+        # the clock time is what is reported: evaluate the hour angle at that clock time ON THE REQUESTED DATE
+        ha = e.hour_angle(dh % 24.0)
         if abs(ha) > 10.0 * 15.0 / 3600.0:
             out.append(("dhuhr-transit", "hour angle at Dhuhr is %.4f deg (%.1f s), limit 10 s" % (ha, ha * 240)))
     if "twilight" in want:
@@ -131,3 +132,32 @@ def judge_hours(case, hours, want):
             if abs(t - dh) > 12:
                 out.append(("order-12h", "%s is more than 12 h from Dhuhr" % n))
     return out
+
+
+# ------------------------------------------------------------------------------------------------
+# Independent low-precision solar ephemeris (Meeus, Astronomical Algorithms ch. 12, 22 (principal terms), 25 "low accuracy").
+# Accuracy about 0.01 deg in apparent longitude; used only for the native ASSUMPTION sweep of the ephemeris contract.
+
+def sun_apparent(jd):
+    """Returns (ra_deg, dec_deg, gast_deg) for a Julian Day (UT ~ TT at this accuracy)."""
+    T = (jd - 2451545.0) / 36525.0
+    L0 = 280.46646 + 36000.76983 * T + 0.0003032 * T * T
+    M = 357.52911 + 35999.05029 * T - 0.0001537 * T * T
+    Mr = M * D
+    C = (1.914602 - 0.004817 * T - 0.000014 * T * T) * math.sin(Mr) + (0.019993 - 0.000101 * T) * math.sin(2 * Mr) + 0.000289 * math.sin(3 * Mr)
+    true_long = L0 + C
+    omega = 125.04 - 1934.136 * T
+    lam = true_long - 0.00569 - 0.00478 * math.sin(omega * D)
+    eps0 = 23.0 + 26.0 / 60 + 21.448 / 3600 - (46.8150 * T + 0.00059 * T * T - 0.001813 * T * T * T) / 3600
+    eps = eps0 + 0.00256 * math.cos(omega * D)
+    ra = math.atan2(math.cos(eps * D) * math.sin(lam * D), math.cos(lam * D)) / D % 360.0
+    dec = math.asin(math.sin(eps * D) * math.sin(lam * D)) / D
+    gmst = 280.46061837 + 360.98564736629 * (jd - 2451545.0) + 0.000387933 * T * T - T * T * T / 38710000.0
+    Lm = 218.3165 + 481267.8813 * T
+    dpsi = (-17.20 * math.sin(omega * D) - 1.32 * math.sin(2 * L0 * D) - 0.23 * math.sin(2 * Lm * D) + 0.21 * math.sin(2 * omega * D)) / 3600.0
+    gast = (gmst + dpsi * math.cos(eps * D)) % 360.0
+    return ra, dec, gast
+
+
+def angdiff(a, b):
+    return (a - b + 180.0) % 360.0 - 180.0
